@@ -1035,10 +1035,8 @@ def dim(x: list, ctx: Context = REAL):
         else:
             break
 
-    if ctx is None:
-        return Float.from_int(dim)
-    else:
-        return ctx.round(dim)
+    # an exact count: not rounded under `ctx`
+    return Float.from_int(dim)
 
 def size(x: list, dim: Real, ctx: Context = REAL):
     """
@@ -1047,20 +1045,11 @@ def size(x: list, dim: Real, ctx: Context = REAL):
     Assumes that `x` is not a ragged tensor.
     """
     dim = _cvt_to_float(dim)
-    if dim.is_zero():
-        # size(x, 0) = len(x)
-        if ctx is None:
-            return Float.from_int(len(x))
-        else:
-            return ctx.round(len(x))
-    else:
-        # size(x, n) = size(x[0], n - 1)
-        for _ in range(int(dim)):
-            x = x[0]
-        if ctx is None:
-            return Float.from_int(len(x))
-        else:
-            return ctx.round(len(x))
+    # size(x, 0) = len(x); size(x, n) = size(x[0], n - 1)
+    for _ in range(int(dim)):
+        x = x[0]
+    # an exact count: not rounded under `ctx`
+    return Float.from_int(len(x))
 
 #############################################################################
 # Tuple
